@@ -157,5 +157,5 @@ def cases(draw):
 
 
 PARTS = [
-    Part('sessions', 'hyp', run_case, strategy=cases(), quick=120, thorough=9600, quick_shards=8),
+    Part('sessions', 'hyp', run_case, strategy=cases(), quick=160, thorough=9600, quick_shards=8),
 ]
